@@ -186,7 +186,7 @@ def check_inject(case, ref, builders):
 
 def fault_cases():
     """real design faults caught by checking passes, and a generator body raising once"""
-    return [("fault", k) for k in ("width", "missing-port", "orphan", "generator-once", "generator-nested", "generator-bad-params")]
+    return [("fault", k) for k in ("width", "missing-port", "orphan", "generator-once", "generator-nested", "generator-bad-params", "late-fault-shared-children")]
 
 
 def check_fault(case, ref, builders):
@@ -197,6 +197,50 @@ def check_fault(case, ref, builders):
     class Leaf:
         a = h.Port(width=2)
         b = h.Port()
+    if kind == "late-fault-shared-children":
+        # a parent that fails LATE (array width, found only when arrays are flattened) has already had its sound
+        # children flattened; a different, valid parent sharing those children - reached through a port reference to a
+        # bundle-valued port - must still export exactly as it does without the failed call
+        def build():
+            @h.bundle
+            class Diff:
+                p, n = h.Signals(2)
+            Tx = h.Module(name="TxL")
+            Tx.d = Diff(port=True)
+            Tx.r = h.R(r=1)(p=Tx.d.p, n=Tx.d.n)
+            Rx = h.Module(name="RxL")
+            Rx.d = Diff(port=True)
+            Rx.r = h.R(r=2)(p=Rx.d.p, n=Rx.d.n)
+            Unit = h.Module(name="UnitL")
+            Unit.a = h.Input()
+            Unit.r = h.R(r=3)(p=Unit.a, n=Unit.a)
+            Bad = h.Module(name="BadL")
+            Bad.tx = Tx()
+            Bad.rx = Rx(d=Bad.tx.d)
+            Bad.w = h.Signal(width=3)
+            Bad.arr = 2 * Unit(a=Bad.w)
+            Good = h.Module(name="GoodL")
+            Good.tx = Tx()
+            Good.rx = Rx(d=Good.tx.d)
+            Good.nc = Tx(d=h.NoConn())
+            return Bad, Good
+        _, good_ref = build()
+        want = serialize(h.to_proto(good_ref))
+        bad, good = build()
+        try:
+            h.to_proto(bad)
+            return (f"fault.{kind}.accepted", "ill-formed design exported", {"case": repr(case)})
+        except Exception:
+            pass
+        try:
+            got = serialize(h.to_proto(good))
+        except Exception as e:
+            return (f"fault.{kind}.poisoned", f"a valid design sharing the failed design's children is refused: "
+                                              f"{type(e).__name__}: {str(e)[:120]}", {"case": repr(case)})
+        if got != want:
+            return (f"fault.{kind}.differs", "a valid design sharing the failed design's children exports differently",
+                    {"case": repr(case)})
+        return None
     if kind in ("width", "missing-port", "orphan"):
         def build(bad):
             m = h.Module(name="Faulty")
@@ -317,6 +361,8 @@ def check_fault(case, ref, builders):
 
 
 def run(ctx):
+    from contracts import c_io
+    ctx.verify(c_io.engine(), c_io.VERIFY)       # which interface of a child a pass sees must follow what was DONE to it
     from contracts import c_elab as ce, c_generator as cg
     eng = mk_engine(contracts=ce.CONTRACTS, loops=ce.LOOPS, class_attrs=ce.CLASS_ATTRS, field_classes=ce.FIELD_CLASSES,
                     schema_extra=ce.SCHEMA_EXTRA)
